@@ -478,7 +478,7 @@ class Generator:
         self.out.append((sig, (spec.file, it.line)))
         is_free = bool(getattr(spec, "_free_name", None))
 
-        selfty_txt = spec.opts.get("selfty", "").replace(",", ", ") if is_free else ""
+        selfty_txt = spec.opts.get("selfty", "").replace(",", ", ").replace("~", " ") if is_free else ""
 
         def fr(text):
             if not is_free:
@@ -486,6 +486,7 @@ class Generator:
             text = re.sub(r"\bself\b", "self_", text)
             if selfty_txt:
                 text = re.sub(r"\bSelf::Item\b", "<%s as Iterator>::Item" % selfty_txt, text)
+                text = re.sub(r"\bSelf::IntoIter\b", "<%s as IntoIterator>::IntoIter" % selfty_txt, text)
                 return re.sub(r"\bSelf\b", selfty_txt, text)
             return re.sub(r"\bSelf\b", "X", text)
         if is_free and spec.twinreq:
@@ -651,7 +652,7 @@ class Generator:
         free_name = getattr(spec, "_free_name", None)
         if free_name and spec.opts.get("selfty"):
             # R16 for a method of a trait IMPL: free function over the concrete self type
-            selfty = spec.opts["selfty"].replace(",", ", ")
+            selfty = spec.opts["selfty"].replace(",", ", ").replace("~", " ")
             fg = spec.opts.get("freegen", "")
             own = ""
             mg = re.match(r"^(.*?\bfn\s+\w+)\s*(<.*>)?$", head)
@@ -698,8 +699,9 @@ class Generator:
             self.count("R0-pub(super)", nvis)
         sig = "%s(%s) %s" % (head, ", ".join(tight(x) for x in newparams), rest_txt)
         if free_name and spec.opts.get("selfty"):
-            st = spec.opts["selfty"].replace(",", ", ")
+            st = spec.opts["selfty"].replace(",", ", ").replace("~", " ")
             sig = re.sub(r"\bSelf\s*::\s*Item\b", "<%s as Iterator>::Item" % st, sig)
+            sig = re.sub(r"\bSelf\s*::\s*IntoIter\b", "<%s as IntoIterator>::IntoIter" % st, sig)
             sig = re.sub(r"\bSelf\b", st, sig)
         return self.apply_subst(sig, spec)
 
